@@ -15,12 +15,12 @@ from msmart.lan import LAN, AuthenticationError, ProtocolError
 ID = "C09"
 LEVEL = "exploration"
 RULE = ("a case = (entry point, protocol phase, adversarial byte string the simulated peer sends in place of - or before - its reply; "
-        "retransmissions get the same bytes). Strings come from grammar-aware mutation of valid V2/V3 traffic: every header field at "
-        "boundary values with and without a recomputed signature, correctly signed random/empty/mis-padded ciphertext, ciphertext lengths "
+        "retransmissions get the same bytes; one case in six the peer closes (FIN) or resets the connection right after them, and a close/reset alone or after a partial header is tried in every phase at every entry point). Strings come from grammar-aware mutation of valid V2/V3 traffic: every header field at "
+        "boundary values with and without a recomputed signature, authentic packets whose header fields (message type, magic, message id, every byte of the timestamp incl. non-calendar values, device id, reserved) hold boundary values, correctly signed random/empty/mis-padded ciphertext, ciphertext lengths "
         "not a multiple of 16, correct SHA-256 tag over garbage, every type nibble 0..15 in every phase (pre-auth, handshake, data), size "
         "fields 0/65535, truncations, several packets per segment, random bytes. Allowed outcomes: LAN.send -> frames | ProtocolError | "
         "TimeoutError; LAN.authenticate -> return | ProtocolError | TimeoutError; Device.authenticate -> return | AuthenticationError; "
-        "Device._send_command / AirConditioner.refresh / apply / get_capabilities / toggle_display -> return only. distinct = (entry point, phase, bytes); non-trivial = all")
+        "Device._send_command / AirConditioner.refresh / apply / get_capabilities / toggle_display (also when the V3 handshake happens implicitly inside them after a reconnect) -> return only. distinct = (entry point, phase, bytes); non-trivial = all")
 ASSUMPTIONS = ["the peer controls bytes only (host names, key lengths and other caller inputs are not mutated)",
                "exceptions raised inside data_received are recorded (evidence) but only judged through what escapes the entry point"]
 ANCHORS = ["lan.py:_Packet.decode", "lan.py:_LanProtocolV3._process_packet", "lan.py:_LanProtocolV3._decode_encrypted_response",
@@ -37,7 +37,8 @@ SKEY = v3.session_key(KEY, NONCE)
 BATCH = 48
 
 V2_DRIVERS = ["v2/lan.send", "v2/refresh", "v2/_send_command", "v2/apply", "v2/caps", "v2/toggle"]
-V3_PRE_DRIVERS = ["v3hs/lan.authenticate", "v3hs/dev.authenticate", "v3pre/unsolicited", "v3hs/send-implicit-auth"]
+V3_PRE_DRIVERS = ["v3hs/lan.authenticate", "v3hs/dev.authenticate", "v3pre/unsolicited", "v3hs/send-implicit-auth",
+                  "v3hs/refresh-implicit-auth", "v3hs/apply-implicit-auth"]
 V3_DATA_DRIVERS = ["v3data/lan.send", "v3data/refresh", "v3data/apply", "v3data/caps"]
 
 
@@ -84,9 +85,13 @@ def _items(ctx, rng):
 def generate(ctx, rng):
     groups = {}
     n = 0
+    k = 0
     for driver, label, b in _items(ctx, rng):
         g = groups.setdefault(driver, [])
-        g.append({"label": label, "bytes": b})
+        k += 1
+        # the peer may also close (FIN) or reset the connection right after its bytes, while the caller is waiting
+        then = None if k % 6 else ("fin" if k % 12 else "rst")
+        g.append({"label": label + ("+" + then if then else ""), "bytes": b, "then": then})
         if len(g) == BATCH:
             yield ("b", n), {"driver": driver, "items": g}
             n += 1
@@ -95,6 +100,11 @@ def generate(ctx, rng):
         if g:
             yield ("b", n), {"driver": driver, "items": g}
             n += 1
+    # nothing but a close / reset in place of the reply, in every phase and at every entry point
+    for driver in V2_DRIVERS + V3_PRE_DRIVERS + V3_DATA_DRIVERS:
+        yield ("close", driver), {"driver": driver, "items": [{"label": "close-only+" + t, "bytes": b"", "then": t} for t in ("fin", "rst")] +
+                                  [{"label": "partial+" + t, "bytes": bb, "then": t} for t in ("fin", "rst")
+                                   for bb in (b"\x83\x70\x00\x40\x20", b"\x5a\x5a\x01\x11\x68\x00", b"\x83")]}
 
 
 def _allowed(driver: str):
@@ -115,19 +125,22 @@ def run_case(ctx, case):
     net = H.new_net()
     dev = SimDevice(net, version=version, token=TOKEN, key=KEY, device_id=0xC09)
     dev.nonce_source = lambda: NONCE
-    cur = {"bytes": None, "hs": None, "unsolicited": None}
+    cur = {"bytes": None, "hs": None, "unsolicited": None, "then": None}
+
+    def acts(b):
+        return ([(0, b)] if b else []) + ([(0, cur["then"])] if cur["then"] else [])
 
     def on_exchange(conn, req, packets, meta):
         if cur["bytes"] is None:
             return None
-        return [(0, cur["bytes"])]
+        return acts(cur["bytes"])
 
     def on_handshake(conn, ok, reply, info):
         if cur["unsolicited"] is not None:
-            return [(0, cur["unsolicited"]), (0, reply)]
+            return [(0, cur["unsolicited"]), (0, reply)] + ([(0, cur["then"])] if cur["then"] else [])
         if cur["hs"] is None:
             return None
-        return [(0, cur["hs"])]
+        return acts(cur["hs"])
 
     dev.on_exchange = on_exchange
     dev.on_handshake = on_handshake
@@ -135,7 +148,7 @@ def run_case(ctx, case):
 
     async def one(it):
         adv = bytes(it["bytes"])
-        cur.update(bytes=None, hs=None, unsolicited=None)
+        cur.update(bytes=None, hs=None, unsolicited=None, then=None)
         ac = AC(ip=dev.host, port=dev.port, device_id=dev.device_id)
         lan = ac._lan
         if phase == "v3data":
@@ -143,7 +156,7 @@ def run_case(ctx, case):
             cur["bytes"] = adv
         elif phase == "v2":
             cur["bytes"] = adv
-        elif ep == "send-implicit-auth":
+        elif ep.endswith("-implicit-auth"):
             await ac.authenticate(TOKEN, KEY)
             for c in dev.conns:
                 if not c.closed:
@@ -155,11 +168,12 @@ def run_case(ctx, case):
             cur["unsolicited"] = adv
         else:
             cur["hs"] = adv
+        cur["then"] = it.get("then")
         if ep in ("lan.send", "send-implicit-auth"):
             return await lan.send(acframe.state_query())
-        if ep == "refresh":
+        if ep in ("refresh", "refresh-implicit-auth"):
             return await ac.refresh()
-        if ep == "apply":
+        if ep in ("apply", "apply-implicit-auth"):
             return await ac.apply()
         if ep == "caps":
             return await ac.get_capabilities()
